@@ -1,5 +1,221 @@
 //! Translator targets owned by property C08.
+//!
+//!  * `LowerOrder.lean` (target `c08order`): the **step skeleton** of the MIR
+//!    lowering functions the order of side effects hangs on
+//!    (`src/mir/lower.rs`, `src/mir/lower/match_expr.rs`): for each function,
+//!    the calls on `self` (`self.expr(l)`, `self.assign_to_var(l, l_ty)`,
+//!    `self.do_assign(…)`, `self.emit_switch(…)`, `self.new_block(…)` …) in
+//!    evaluation order (arguments before the call that takes them), the
+//!    iterator adaptors of the loops over arguments / fields / arms
+//!    (`arguments.iter()`, `.rev()`, `.map`), the `Value::…` / `Expr::BinOp`
+//!    constructions, and markers for `if` / `for` / `match` / closures. Arguments that
+//!    are plain local names are written `v0, v1, …` in order of first use, so a
+//!    consistent renaming of a local variable leaves the skeleton unchanged.
+//!    `Props/C08.lean` pins every skeleton to the sequence the structured
+//!    lowering model (`Model/LowerS.lean`) implements: a regrouped, reversed,
+//!    dropped or duplicated step changes the generated definition and the
+//!    theorem stops checking.
 #[allow(unused_imports)]
 use super::{Gen, Target};
+use crate::find;
+use quote::ToTokens;
+use std::path::Path;
+use syn::visit::Visit;
 
-pub const TARGETS: &[Target] = &[];
+pub const TARGETS: &[Target] = &[("c08order", "LowerOrder", lower_order as Gen)];
+
+const ITER_METHODS: &[&str] = &["iter", "into_iter", "rev", "map", "enumerate", "zip", "filter", "filter_map", "extend", "collect", "skip", "take", "chain"];
+
+const DROP_BOOKKEEPING: &[&str] = &["emit_drop", "add_live_variable", "remove_live_variable", "drop_var", "current_label"];
+
+fn toks(t: &impl ToTokens) -> String {
+    let s = t.to_token_stream().to_string().replace(' ', "");
+    if s.len() > 70 { format!("{}…", s.chars().take(70).collect::<String>()) } else { s }
+}
+
+#[derive(Default)]
+struct Skel {
+    out: Vec<String>,
+    /// local names in order of first use as a whole argument: a consistent renaming of a
+    /// local variable does not change the skeleton, a regrouping does
+    locals: Vec<String>,
+}
+
+impl Skel {
+    /// An argument that is a plain local name (`l`, `&l_ty`) is written as `v<i>` / `&v<i>`
+    /// (index of first use in this function); anything else as its tokens.
+    fn arg(&mut self, a: &syn::Expr) -> String {
+        let t = toks(a);
+        let (amp, name) = match t.strip_prefix('&') {
+            Some(r) => ("&", r),
+            None => ("", t.as_str()),
+        };
+        let plain = !name.is_empty()
+            && name != "self"
+            && name.chars().next().map(|c| c.is_ascii_lowercase() || c == '_').unwrap_or(false)
+            && name.chars().all(|c| c.is_ascii_lowercase() || c.is_ascii_digit() || c == '_');
+        if !plain {
+            return t;
+        }
+        let i = match self.locals.iter().position(|n| n == name) {
+            Some(i) => i,
+            None => {
+                self.locals.push(name.to_string());
+                self.locals.len() - 1
+            }
+        };
+        format!("{amp}v{i}")
+    }
+}
+
+impl<'ast> Visit<'ast> for Skel {
+    fn visit_expr_method_call(&mut self, m: &'ast syn::ExprMethodCall) {
+        // children first: a step is recorded when its operands have been evaluated
+        self.visit_expr(&m.receiver);
+        for a in &m.args {
+            self.visit_expr(a);
+        }
+        let recv = toks(&m.receiver);
+        let name = m.method.to_string();
+        if DROP_BOOKKEEPING.contains(&name.as_str()) || recv.contains("to_drop") || recv.contains("stack_slots") {
+            // drop bookkeeping is C03's subject and has no effect on the order of host calls
+            return;
+        }
+        if recv == "self" {
+            let args: Vec<String> = m.args.iter().map(|a| self.arg(a)).collect();
+            self.out.push(format!("self.{name}({})", args.join(",")));
+        } else if ITER_METHODS.contains(&name.as_str()) {
+            let r = if recv.len() > 40 { "…".to_string() } else { recv };
+            self.out.push(format!("{r}.{name}"));
+        }
+    }
+    fn visit_expr_call(&mut self, c: &'ast syn::ExprCall) {
+        syn::visit::visit_expr_call(self, c);
+        let f = toks(&c.func);
+        if f.ends_with("Expr::BinOp") {
+            let args: Vec<String> = c.args.iter().map(|a| toks(a)).collect();
+            self.out.push(format!("Expr::BinOp({})", args.join(",")));
+        }
+    }
+    fn visit_expr_struct(&mut self, s: &'ast syn::ExprStruct) {
+        syn::visit::visit_expr_struct(self, s);
+        let p = toks(&s.path);
+        if p.starts_with("Value::") {
+            let fields: Vec<String> = s.fields.iter().map(|f| format!("{}:{}", toks(&f.member), self.arg(&f.expr))).collect();
+            self.out.push(format!("{p}{{{}}}", fields.join(",")));
+        }
+    }
+    fn visit_expr_if(&mut self, i: &'ast syn::ExprIf) {
+        self.visit_expr(&i.cond);
+        // the condition's text is left out (it names locals); its calls were recorded above
+        self.out.push("if".into());
+        self.visit_block(&i.then_branch);
+        if let Some((_, e)) = &i.else_branch {
+            self.out.push("else".into());
+            self.visit_expr(e);
+        }
+        self.out.push("endif".into());
+    }
+    fn visit_expr_for_loop(&mut self, f: &'ast syn::ExprForLoop) {
+        let e = toks(&f.expr);
+        if e.contains("to_drop") || e.contains("stack_slots") || e.contains("frame") {
+            return;
+        }
+        self.visit_expr(&f.expr);
+        self.out.push(format!("for({})", toks(&f.expr)));
+        self.visit_block(&f.body);
+        self.out.push("endfor".into());
+    }
+    fn visit_expr_match(&mut self, m: &'ast syn::ExprMatch) {
+        self.visit_expr(&m.expr);
+        self.out.push(format!("match({})", toks(&m.expr)));
+        for a in &m.arms {
+            self.out.push(format!("arm({})", toks(&a.pat)));
+            self.visit_expr(&a.body);
+        }
+        self.out.push("endmatch".into());
+    }
+    fn visit_expr_closure(&mut self, c: &'ast syn::ExprClosure) {
+        self.out.push("closure".into());
+        self.visit_expr(&c.body);
+        self.out.push("endclosure".into());
+    }
+    fn visit_expr_return(&mut self, r: &'ast syn::ExprReturn) {
+        syn::visit::visit_expr_return(self, r);
+        self.out.push("return".into());
+    }
+}
+
+/// (Lean name, file, function)
+const FUNCS: &[(&str, &str, &str)] = &[
+    ("binop", "src/mir/lower.rs", "binop"),
+    ("normalizedFunctionCall", "src/mir/lower.rs", "normalized_function_call"),
+    ("functionCall", "src/mir/lower.rs", "function_call"),
+    ("shortcircuitBinop", "src/mir/lower.rs", "shortcircuit_binop"),
+    ("desugaredBinop", "src/mir/lower.rs", "desugared_binop"),
+    ("binopStr", "src/mir/lower.rs", "binop_str"),
+    ("callRuntime", "src/mir/lower.rs", "call_runtime"),
+    ("compoundAssign", "src/mir/lower.rs", "compound_assign"),
+    ("assign", "src/mir/lower.rs", "assign"),
+    ("ifElse", "src/mir/lower.rs", "if_else"),
+    ("whileLoop", "src/mir/lower.rs", "while"),
+    ("forLoop", "src/mir/lower.rs", "for"),
+    ("block", "src/mir/lower.rs", "block"),
+    ("blockExpr", "src/mir/lower.rs", "block_expr"),
+    ("stmt", "src/mir/lower.rs", "stmt"),
+    ("returnExpr", "src/mir/lower.rs", "return"),
+    ("returnValue", "src/mir/lower.rs", "return_value"),
+    ("questionMark", "src/mir/lower.rs", "question_mark"),
+    ("notExpr", "src/mir/lower.rs", "not"),
+    ("negate", "src/mir/lower.rs", "negate"),
+    ("access", "src/mir/lower.rs", "access"),
+    ("record", "src/mir/lower.rs", "record"),
+    ("list", "src/mir/lower.rs", "list"),
+    ("enumConstructor", "src/mir/lower.rs", "enum_constructor"),
+    ("makeEnum", "src/mir/lower.rs", "make_enum"),
+    ("fString", "src/mir/lower.rs", "f_string"),
+    ("assignToVar", "src/mir/lower.rs", "assign_to_var"),
+    ("doAssign", "src/mir/lower.rs", "do_assign"),
+    ("functionLike", "src/mir/lower.rs", "function_like"),
+    ("matchExpr", "src/mir/lower/match_expr.rs", "match"),
+    ("matchCase", "src/mir/lower/match_expr.rs", "match_case"),
+];
+
+fn lean_str(s: &str) -> String {
+    let mut o = String::from("\"");
+    for c in s.chars() {
+        match c {
+            '"' => o.push_str("\\\""),
+            '\\' => o.push_str("\\\\"),
+            c => o.push(c),
+        }
+    }
+    o.push('"');
+    o
+}
+
+fn lower_order(repo: &Path) -> Result<String, String> {
+    let mut out = String::new();
+    out.push_str("/- GENERATED by /verif/extract from src/mir/lower.rs and src/mir/lower/match_expr.rs — do not edit.\n   The step skeleton of the lowering functions (see extract/src/targets/c08.rs). -/\nnamespace RotoV.Gen.LowerOrder\n\n");
+    let mut cache: Vec<(String, syn::File)> = vec![];
+    for (lean, file, func) in FUNCS {
+        if !cache.iter().any(|(f, _)| f == file) {
+            cache.push((file.to_string(), find::parse(repo, file)?));
+        }
+        let parsed = &cache.iter().find(|(f, _)| f == file).unwrap().1;
+        // `r#while` etc. are raw identifiers: syn's Ident compares equal to the plain name
+        let f = find::func(parsed, func, Some("Lowerer"))
+            .or_else(|_| find::func(parsed, &format!("r#{func}"), Some("Lowerer")))
+            .map_err(|e| format!("{file}: {e}"))?;
+        let mut sk = Skel::default();
+        sk.visit_block(&f.block);
+        if sk.out.is_empty() {
+            return Err(format!("{file}: {func}: empty skeleton"));
+        }
+        out.push_str(&format!("/-- `Lowerer::{func}` ({file}) -/\ndef {lean} : List String := [\n"));
+        out.push_str(&sk.out.iter().map(|s| format!("  {}", lean_str(s))).collect::<Vec<_>>().join(",\n"));
+        out.push_str("\n]\n\n");
+    }
+    out.push_str("end RotoV.Gen.LowerOrder\n");
+    Ok(out)
+}
